@@ -160,6 +160,20 @@ func TestC11_ClaimIdentityBindsFields(t *testing.T) {
 		if (f.Name == "PalomaReceiver" || f.Name == "SmartContractAddress") && rapid.IntRange(0, 3).Draw(t, "caseFlipOnly") == 0 {
 			nv = c11FlipCase(t, old.(string))
 		}
+		// The deployment id is compared byte-wise with the chain's latest compass id (claims with another spelling are
+		// never tallied; compass ids are bytes32 values, NUL-padded on the right) and the receiver is bech32-decoded:
+		// padding is a different value there, too.
+		if (f.Name == "CompassId" || f.Name == "PalomaReceiver") && rapid.IntRange(0, 3).Draw(t, "paddingOnly") == 0 {
+			pad := rapid.SampledFrom([]string{"\x00", "\x00\x00\x00", " ", "\n"}).Draw(t, "pad")
+			o := old.(string)
+			if rapid.Bool().Draw(t, "padBase") {
+				// the base claim carries the padded spelling, the mutant the trimmed one
+				reflect.ValueOf(base).Elem().FieldByName(f.Name).SetString(o + pad)
+				old, nv = o+pad, o
+			} else {
+				nv = o + pad
+			}
+		}
 		if fmt.Sprint(old) == fmt.Sprint(nv) {
 			t.Skip("same value drawn")
 		}
